@@ -14,7 +14,7 @@
    before each inward fit); [top_test := false] gives the unrepaired loop (ellipse.py:475-500
    of the snapshot), kept to state the defect as a refutation.  The fitter model has the
    zero-gradient exit of fixes/C20-2 (the snapshot divides by the gradient there and crashes
-   in the integrator). *)
+   in the integrator) and keeps a fixed position angle when eps changes sign (fixes/C20-4). *)
 From Coq Require Import List ZArith Bool QArith Floats Uint63.
 From PV Require Import lib.Cases.
 Import ListNotations.
@@ -350,10 +350,13 @@ Definition correct (k : nat) (g : geom) (o : obs) : geom :=
   | _ => mkgeom (g_x0 g) (g_y0 g) (g_pa g) (pymin (sub N (g_eps g) (o_corr o)) max_eps)
   end.
 
-(* fitter.py:273-283: eps-sign / eps-zero normalisation done by _check_conditions *)
-Definition normalise (g : geom) : geom :=
+(* fitter.py:273-283: eps-sign / eps-zero normalisation done by _check_conditions.  With the
+   position angle fixed ([fpa] = sample.geometry.fix[2]) a negative eps becomes MIN_EPS and the
+   angle stays (fixes/C20-4; the snapshot rotates the angle by pi/2 in that case too). *)
+Definition normalise (fpa : bool) (g : geom) : geom :=
   let g1 := if ltb N (g_eps g) (n0 N)
-            then mkgeom (g_x0 g) (g_y0 g)
+            then if fpa then mkgeom (g_x0 g) (g_y0 g) (g_pa g) min_eps
+                 else mkgeom (g_x0 g) (g_y0 g)
                         (if ltb N (g_pa g) pi2 then add N (g_pa g) pi2 else sub N (g_pa g) pi2)
                         (pymin (opp N (g_eps g)) max_eps)
             else g in
@@ -390,7 +393,7 @@ Fixpoint fit_loop (mask : list bool) (inwards : bool) (minit : nat) (i : nat) (o
       if o_gradzero o then ((-1)%Z, true, g, tr) else          (* fixes/C20-2: no corrector is applied *)
       let gc := correct k g o in
       let '(proceed, lexceed') := check_conditions gc o inwards lexceed in
-      let g' := normalise gc in
+      let g' := normalise (nth 2 mask false) gc in
       if proceed then fit_loop mask inwards minit (S i) os' g' lexceed' minamp (tr ++ [gc])
       else ((-1)%Z, true, g', tr ++ [gc])
   end.
@@ -516,7 +519,7 @@ Definition check_case (c : case) : bool :=
       && feq (nth k' (map F coeffs) (Z2F 0 0)) harm
       && negb (nth k' (fix_mask fc fpa feps) true)
       && frame_ok k' (G g) (G gc)
-      && geom_eqb (normalise Fnum max_eps_f min_eps_f pi2_f (G gc)) (G gn)
+      && geom_eqb (normalise Fnum max_eps_f min_eps_f pi2_f fpa (G gc)) (G gn)
   end.
 
 Definition model_out (c : case) :=
